@@ -1,7 +1,7 @@
 import Wx.Job.C09
 import Wx.Job.C09b
 import Wx.Job.C09c
-import Wx.Job.Api
+import Wx.Job.ApiThm
 /-! # C09 — Job lifecycle follows the documented state machine
 
 > For every sequence of controls the job's observable state (pending, running, finished with status, and the previous
